@@ -19,7 +19,7 @@ import (
 	"github.com/kelindar/column/commit"
 )
 
-var streamCols = []ColSpec{{"tx", KInt64}, {"x", KInt64}, {"m", KInt64}, {"im", KInt64Mul}, {"s", KString}, {"e", KEnum}, {"b", KBool},
+var streamCols = []ColSpec{{"tx", KInt64}, {"x", KInt64}, {"m", KInt64}, {"im", KInt64Mul}, {"s", KString}, {"e", KEnum}, {"b", KBool}, {"rm", KRecordMerge},
 	{"p0", KInt64}, {"p1", KInt64}, {"p2", KInt64}, {"p3", KInt64}, {"p4", KInt64}, {"p5", KInt64}, {"p6", KInt64}, {"p7", KInt64}}
 
 var streamIdx = []IndexSpec{{Name: "m_odd", Col: "m", P: Pred{Op: "int>=", I: 1000}}, {Name: "x_neg", Col: "x", P: Pred{Op: "int<", I: 0}}}
@@ -231,6 +231,10 @@ func streamWorkload(w *W, idx int, writers, txnsPer int, snapshots int) *streamR
 							}
 							if rng.Intn(5) == 0 {
 								ws = append(ws, Write{Col: "s", Merge: true, V: Val{S: fmt.Sprintf("t%d", tx)}})
+							}
+							if rng.Intn(3) == 0 {
+								// order-sensitive record merge (user merge function, decode/merge/encode) - rows of all three blocks
+								ws = append(ws, rmg(uint32(1+rng.Intn(9)), ""))
 							}
 							do(at(row, ws...))
 						}
